@@ -269,3 +269,54 @@ func (n *normaliser) canonConst(fd *ast.FuncDecl) {
 		return true
 	}, nil)
 }
+
+// canonNewConst replaces a use of a package-level constant that the inventory does not list (a
+// literal that was given a name) by a literal of its value.
+func (n *normaliser) canonNewConst(fd *ast.FuncDecl) {
+	if n.base == nil {
+		return
+	}
+	known := n.base.Decls["const"]
+	astutil.Apply(fd.Body, func(c *astutil.Cursor) bool {
+		id, ok := c.Node().(*ast.Ident)
+		if !ok {
+			return true
+		}
+		cst, ok := n.info.Uses[id].(*types.Const)
+		if !ok || cst.Pkg() != n.pkg.Types || cst.Parent() != n.pkg.Types.Scope() {
+			return true
+		}
+		if _, listed := known[n.pkg.PkgPath+"."+cst.Name()]; listed {
+			return true
+		}
+		if sel, isSel := c.Parent().(*ast.SelectorExpr); isSel && sel.Sel == id {
+			return true
+		}
+		b, ok := cst.Type().Underlying().(*types.Basic)
+		if !ok {
+			return true
+		}
+		tv, ok := n.info.Types[id]
+		if !ok || tv.Value == nil {
+			return true
+		}
+		var lit *ast.BasicLit
+		switch {
+		case b.Info()&types.IsString != 0 && tv.Value.Kind() == constant.String:
+			lit = &ast.BasicLit{Kind: token.STRING, Value: tv.Value.ExactString(), ValuePos: id.Pos()}
+		case b.Info()&types.IsInteger != 0 && tv.Value.Kind() == constant.Int:
+			lit = &ast.BasicLit{Kind: token.INT, Value: tv.Value.ExactString(), ValuePos: id.Pos()}
+		default:
+			return true
+		}
+		// a typed constant keeps its type through the literal only if that type is what the context gives
+		// an untyped literal anyway: keep to untyped constants and to the predeclared types
+		if _, named := cst.Type().(*types.Named); named {
+			return true
+		}
+		n.info.Types[lit] = tv
+		c.Replace(lit)
+		n.p.mutated = true
+		return true
+	}, nil)
+}
